@@ -24,6 +24,7 @@ RULE = (
     "power data; the parsed star_power_events list must equal the written list. Non-trivial iff >= 2 "
     "phrases and (a note on a boundary tick, or >= 2 notes after the last phrase, or "
     "nested/overlapping/zero-length phrases present); distinct = distinct (phrase list, note ticks)."
+    ' Also: phrases longer than 2^31..2^64 ticks with notes on the last covered and first uncovered tick; neighbour sections that are near-copies of the target.'
 )
 ASSUMPTIONS = [
     "phrases are ordered by start tick and notes strictly increasing (the quantifier's domain)",
